@@ -62,6 +62,9 @@ pub enum Tok {
     /// the first bytes of a frame that never gets its rest (sampled generators only, always the
     /// last token): cut off by FIN it is H3_FRAME_ERROR, on an open stream it is waited on
     TruncatedFrame,
+    /// a DATA frame announcing ten octets of which four arrive (sampled generators only, always
+    /// the last token): on a stream that stays open the four octets are handed out
+    TruncatedData,
 }
 pub const ALPHABET: [Tok; 11] = [
     Tok::Headers,
@@ -204,8 +207,17 @@ fn tok_bytes(t: Tok, k: usize, first_headers: bool, side_is_server: bool) -> Vec
                 v
             }
         },
+        Tok::TruncatedData => {
+            let mut v = vec![0x00, 0x0a];
+            v.extend(&partial_payload(k));
+            v
+        }
         Tok::HeadersBadQpack => raw::headers_frame(*[&[0x00u8, 0x00, 0x80][..], &[0x00, 0x00, 0xff, 0x24], &[0x00, 0x00, 0x23, 0x61, 0x62]].get(k % 3).unwrap()),
     }
+}
+
+fn partial_payload(k: usize) -> Vec<u8> {
+    (0..4).map(|i| (k * 13 + i + 1) as u8).collect()
 }
 
 fn data_payload(k: usize) -> Vec<u8> {
@@ -257,6 +269,20 @@ pub fn expected(seq: &[Tok], ending: Ending, server: bool) -> Expected {
                 }
                 Ending::Reset(_) => return Expected { steps, dont_care: Some("reset inside a frame") },
             }
+        }
+        if *t == Tok::TruncatedData {
+            // judged where DATA is allowed and the stream stays open: what has arrived of the
+            // payload reaches the application, then it waits. How much is handed out before an
+            // error (end of stream inside the frame, reset) is not prescribed; a DATA frame in
+            // another position is a sequence error whose timing is not this token's subject
+            if st == St::Body && ending == Ending::Open {
+                body.extend(partial_payload(k));
+                flush(&mut steps, &mut body);
+                steps.push(Step::Pending);
+                return Expected { steps, dont_care: None };
+            }
+            // (the body collected so far is not flushed: the observed Data step may have grown)
+            return Expected { steps, dont_care: Some("partial DATA payload before an error or out of place") };
         }
         if *t == Tok::PushPromise && !server {
             flush(&mut steps, &mut body);
@@ -733,8 +759,13 @@ fn run_case(gen: &str, index: u64, seed: u64, _tier: Tier, rep: &mut Report) {
                 // ends inside a frame: cut the sequence anywhere and append the beginning of a frame
                 let keep = rng.usize(seq.len() + 1);
                 seq.truncate(keep);
-                seq.push(Tok::TruncatedFrame);
-                rep.count("sequences_ending_inside_a_frame");
+                if rng.chance(1, 3) {
+                    seq.push(Tok::TruncatedData);
+                    rep.count("sequences_ending_inside_a_DATA_payload");
+                } else {
+                    seq.push(Tok::TruncatedFrame);
+                    rep.count("sequences_ending_inside_a_frame");
+                }
             }
             check_sequence(&seq, ending, side, rng.next(), rep);
         }
